@@ -99,9 +99,9 @@ def get_or_formula(relation: Relation) -> str:
 def get_alternative_formula(relation: Relation) -> str:
     formula = []
     parent = relation.parent.name
-    children = {child.name for child in relation.children}
+    children = [child.name for child in relation.children]
     for child in children:
-        children_negatives = children - {child}
+        children_negatives = [ch for ch in children if ch != child]
         children_neg_str = [f"{PLWriter.LogicConnective.NOT.value} " + ch for ch in children_negatives]
         formula.append(f'{child} {PLWriter.LogicConnective.EQUIVALENCE.value} '
                        f'({f" {PLWriter.LogicConnective.AND.value} ".join(children_neg_str)} '
@@ -112,9 +112,9 @@ def get_alternative_formula(relation: Relation) -> str:
 def get_mutex_formula(relation: Relation) -> str:
     formula = []
     parent = relation.parent.name
-    children = {child.name for child in relation.children}
+    children = [child.name for child in relation.children]
     for child in children:
-        children_negatives = children - {child}
+        children_negatives = [ch for ch in children if ch != child]
         children_neg_str = [f"{PLWriter.LogicConnective.NOT.value} " + cn for cn in children_negatives]
         formula.append(f'{child} {PLWriter.LogicConnective.EQUIVALENCE.value} '
                        f'({f" {PLWriter.LogicConnective.AND.value} ".join(children_neg_str)} '
@@ -128,12 +128,12 @@ def get_mutex_formula(relation: Relation) -> str:
 
 def get_cardinality_formula(relation: Relation) -> str:
     parent = relation.parent.name
-    children = {child.name for child in relation.children}
+    children = [child.name for child in relation.children]
     or_ctc = []
     for k in range(relation.card_min, relation.card_max + 1):
         combi_k = list(itertools.combinations(children, k))
         for positives in combi_k:
-            negatives = children - set(positives)
+            negatives = [ch for ch in children if ch not in positives]
             negatives_str = [f"{PLWriter.LogicConnective.NOT.value} " + f for f in negatives]
             positives_and_ctc = f'{f" {PLWriter.LogicConnective.AND.value} ".join(positives)}'
             negatives_and_ctc = f'{f" {PLWriter.LogicConnective.AND.value} ".join(negatives_str)}'
